@@ -52,12 +52,12 @@ fn sfl_none(
 // multiplier operands, so the quick tier uses 4-7 bit operands and the
 // thorough tier 6-12 bits.
 use crate::kani_model::tier::WIDE;
-const BAL_MAX: i64 = if WIDE { 63 } else { 15 };
-const ACB_MAX: i64 = if WIDE { 4000 } else { 1000 }; // 40.00 / 10.00
-const N_MAX: i64 = if WIDE { 63 } else { 15 };
-const PRICE_MAX: i64 = if WIDE { 500 } else { 100 }; // 5.00 / 1.00
-const COMM_MAX: i64 = if WIDE { 63 } else { 15 }; // 0.63 / 0.15
-const RATE_MAX: i64 = if WIDE { 127 } else { 31 }; // 1.27 / 0.31
+const BAL_MAX: i64 = if WIDE { 63 } else { 7 };
+const ACB_MAX: i64 = if WIDE { 4000 } else { 255 }; // 40.00 / 2.55
+const N_MAX: i64 = if WIDE { 63 } else { 7 };
+const PRICE_MAX: i64 = if WIDE { 500 } else { 31 }; // 5.00 / 0.31
+const COMM_MAX: i64 = if WIDE { 63 } else { 7 }; // 0.63 / 0.07
+const RATE_MAX: i64 = if WIDE { 127 } else { 15 }; // 1.27 / 0.15
 
 struct Money {
     usd_tx: bool,
